@@ -424,6 +424,15 @@ func VHarnessC07Alias() {
 		}
 		elems = append(elems, elems[0], elems[255], elems[256], elems[299], vSmall("leaf"))
 		x = starlark.NewList(elems)
+	case 10: // the same EMPTY list, dict and set each referenced twice (size class 0 x aliasing)
+		l, d, st := starlark.NewList(nil), starlark.NewDict(0), starlark.NewSet(0)
+		x = starlark.Tuple{l, d, st, starlark.NewList([]starlark.Value{l, d, st}), vSmall("leaf")}
+	case 11: // equal-but-distinct empty containers must stay distinct
+		x = starlark.Tuple{starlark.NewList(nil), starlark.NewList(nil), starlark.NewDict(0), starlark.NewDict(0), starlark.NewSet(0), starlark.NewSet(0), vSmall("leaf")}
+	case 12: // a shared one-element list and a shared list of > 1000 elements
+		one := starlark.NewList([]starlark.Value{vSmall("leaf")})
+		big := starlark.NewList(vBulk(1001, false))
+		x = starlark.Tuple{one, big, one, big}
 	case 9: // None, booleans, floats, strings and bytes as container elements and dict keys
 		d := starlark.NewDict(4)
 		d.SetKey(starlark.None, starlark.True)
